@@ -204,8 +204,9 @@ def life_length(shape):
         L.teardown()
 
 
-def run_cut(shape, cut, closer):
-    """Returns list of (clause, detail)."""
+def run_cut(shape, cut, closer, drop=None, info=None):
+    """Returns list of (clause, detail).  drop = index (counted from the moment close() starts) of ONE datagram that the
+    network loses; info, when given, receives the number of datagrams sent from that moment on."""
     L = Life(shape)
     loop = L.loop
     loop.fire_one_timer = lambda: _fire_one_timer(loop)
@@ -221,6 +222,8 @@ def run_cut(shape, cut, closer):
                 pass
             # the peer vanishes: everything to and from B is silently lost from now on
             L.w.net.cut.update(c for c in L.w.net.conns)
+        L.w.net.count_from = L.w.net.sent
+        L.w.net.drop_index = drop
         closes = []
         for s in sides:
             t = loop.create_task(L.pc[s].close())
@@ -347,6 +350,8 @@ def run_cut(shape, cut, closer):
             out.append(("task-exception", "; ".join(dead[:3])))
         return out
     finally:
+        if info is not None:
+            info["sent_after_cut"] = L.w.net.sent - (L.w.net.count_from if L.w.net.count_from is not None else L.w.net.sent)
         L.teardown()
 
 
@@ -368,6 +373,37 @@ def task(args):
     return T
 
 
+DROP_LIMIT = 40     # datagrams after the start of close() that may be the lost one (a close sends far fewer)
+
+
+def drops_task(args):
+    """One network deviation after the cut: for every cut and closer, each single datagram sent once close() has started
+    (teardown messages, SCTP ABORT, DTLS close_notify, data and RTCP still in flight, whatever the other side answers) is
+    lost in turn."""
+    shape, closer, lo, hi = args
+    T = Tally()
+    for cut in range(lo, hi):
+        info = {}
+        try:
+            run_cut(shape, cut, closer, drop=None, info=info)
+        except HarnessError:
+            continue
+        n = min(info.get("sent_after_cut", 0), DROP_LIMIT)
+        if info.get("sent_after_cut", 0) > DROP_LIMIT:
+            T.count("drops/capped-at-%d" % DROP_LIMIT)
+        for j in range(n):
+            T.case((shape, closer, cut, j))
+            T.count("drops/" + closer)
+            try:
+                v = run_cut(shape, cut, closer, drop=j)
+            except HarnessError as e:
+                v = [("harness", str(e))]
+            for clause, detail in v[:3]:
+                T.violation(clause + "/drop/" + closer, clause, "%s [shape %s, close() by %s started after %d callbacks, datagram #%d sent after that lost]" % (
+                    detail, shape, closer, cut, j), dict(kind="cut", shape=shape, closer=closer, cut=cut, drop=j))
+    return T
+
+
 def run(tier, seed):
     shapes = [x for x in SHAPES if x != "av-media+dc-short"] if tier == "thorough" else ["av+dc", "dc-only", "audio-only", "a+dc-bundle", "dc-first-bundle", "av-media+dc-short"]
     tasks = []
@@ -381,6 +417,15 @@ def run(tier, seed):
             for lo in range(0, n + 1, chunk):
                 tasks.append((shape, closer, lo, min(n + 1, lo + chunk)))
     total = pmap("props.c19", "task", tasks, seed=seed)
+    # k = 1 network deviation after the cut
+    dshapes = ["dc-only", "audio-only"] if tier == "quick" else ["dc-only", "audio-only", "av+dc", "dc-first-bundle", "video-both"]
+    dtasks = []
+    for shape in dshapes:
+        n = lengths.get(shape) or life_length(shape)
+        for closer in ("A", "B", "both"):
+            for lo in range(0, n + 1, 8):
+                dtasks.append((shape, closer, lo, min(n + 1, lo + 8)))
+    total.merge(pmap("props.c19", "drops_task", dtasks, seed=seed))
     total.transitions = total.evaluations
     return result(
         PID, total,
@@ -391,8 +436,10 @@ def run(tier, seed):
              "replayed to the cut, close() is started and the default policy continues; oracle: close() completes within 30 virtual "
              "seconds, a second close() is a no-op, signaling/ICE/connection state closed, every data channel closed, received tracks "
              "ended and their consumers released, no event emitted after completion, no task of the connection pending once both "
-             "sides are closed, no decoder thread alive, no task died with an exception. distinct = (shape, closer, cut)" % (
-                 ", ".join(shapes), lengths),
+             "sides are closed, no decoder thread alive, no task died with an exception. Plus ONE network deviation after the cut: on the "
+             "shapes %s, for every cut and closer in {A, B, both}, each single datagram sent once close() has started is lost in turn "
+             "(same oracle). distinct = (shape, closer, cut[, lost datagram])" % (
+                 ", ".join(shapes), lengths, ", ".join(dshapes)),
         assumptions=["aioice replaced by a fake connection; tracks produce no media or already encoded packets (no encoder executor threads, excluded by the "
                      "property); real decoder threads, in the media shapes synchronised with the stepping (the loop waits until "
                      "the worker is idle after every callback)", "set iteration order over transports is address dependent: a cut index may map "
@@ -404,7 +451,7 @@ def replay(rep):
     r = rep["replay"]
     bad = 0
     for cut in (r["cut"],):
-        v = run_cut(r["shape"], cut, r["closer"])
+        v = run_cut(r["shape"], cut, r["closer"], drop=r.get("drop"))
         print("shape %s closer %s cut %d:" % (r["shape"], r["closer"], cut))
         for clause, detail in v:
             print("FAILS clause=%s: %s" % (clause, detail))
